@@ -67,6 +67,9 @@ class Report:
     def finish(self):
         os.makedirs(EVIDENCE, exist_ok=True)
         os.makedirs(REPLAYS, exist_ok=True)
+        for fn in os.listdir(REPLAYS):
+            if fn.startswith(self.pid + '-') and EVIDENCE.startswith(os.path.join(os.path.dirname(REPLAYS), 'evidence')):
+                os.remove(os.path.join(REPLAYS, fn))
         dn = max(len(self.nontrivial), self.nontrivial_count)
         cov = dict(
             states=self.states, transitions=self.transitions,
